@@ -117,3 +117,67 @@ Proof.
   - rewrite <- E1. apply rsum_ext; intros i Hi. apply rsum_ext; intros j Hj. f_equal. f_equal.
     apply rsum_ext; intros t Ht. rewrite E by lia. reflexivity.
 Qed.
+
+(* ---- transposed branch of randomized_svd: the range finder runs on M^T, the small SVD is lifted on the right, V' = V @ Q^T ---- *)
+Definition fmul_matT (c : nat) (V Qm : nat -> nat -> R) : nat -> nat -> R := fun t j => rsum c (fun a => V t a * Qm j a).
+
+Theorem randomized_liftT_partial m n c p k (M Qm B U V : nat -> nat -> R) (s : nat -> R) :
+  orthonormal_cols n c Qm ->
+  (forall i j, (i < m)%nat -> (j < n)%nat -> M i j = rsum c (fun a => B i a * Qm j a)) ->   (* rows of M in the range of Q; B = M Q *)
+  orthonormal_cols m p U -> orthonormal_rows p c V ->
+  (forall i a, (i < m)%nat -> (a < c)%nat -> B i a = rsum p (fun t => U i t * s t * V t a)) ->
+  (k <= p)%nat ->
+  let V' := fmul_matT c V Qm in
+  orthonormal_rows p n V' /\
+  (forall i j, (i < m)%nat -> (j < n)%nat -> M i j = rsum p (fun t => U i t * s t * V' t j)) /\
+  rsum m (fun i => rsum n (fun j => (M i j - rsum k (fun t => U i t * s t * V' t j))^2))
+  = rsum (p - k) (fun t => (s (k + t)%nat)^2).
+Proof.
+  intros OQ HM OU OV HB Hk V'.
+  destruct (randomized_lift_partial n m c p k (fun j i => M i j) Qm (fun a i => B i a) (fun a t => V t a) (fun t i => U i t) s) as (O1 & R1 & E1).
+  - exact OQ.
+  - intros j i Hj Hi. rewrite (HM i j Hi Hj). apply rsum_ext; intros a _. ring.
+  - exact OV.
+  - exact OU.
+  - intros a i Ha Hi. rewrite (HB i a Hi Ha). apply rsum_ext; intros t _. ring.
+  - exact Hk.
+  - assert (EV : forall t j, fmul_mat c Qm (fun a t0 => V t0 a) j t = V' t j).
+    { intros t j. unfold fmul_mat, V', fmul_matT. apply rsum_ext; intros a _. ring. }
+    split; [|split].
+    + intros a b Ha Hb. rewrite <- (O1 a b Ha Hb). apply rsum_ext; intros j _. now rewrite !EV.
+    + intros i j Hi Hj. rewrite (R1 j i Hj Hi). apply rsum_ext; intros t _. rewrite EV. ring.
+    + rewrite <- E1. rewrite rsum_exchange. apply rsum_ext; intros j _. apply rsum_ext; intros i _. f_equal. f_equal.
+      apply rsum_ext; intros t _. rewrite EV. ring.
+Qed.
+
+Lemma mg_transp' c (M : list (list R)) j i : (j < c)%nat -> mget Rops (transp Rops c M) j i = mget Rops M i j.
+Proof.
+  intros Hj. unfold transp, cols_of, mget. rewrite (nth_map_seq (fun x => col Rops x M) c j [] Hj). apply nth_col.
+Qed.
+
+Theorem randomized_liftT_model_partial d1 d2 c p k (Qm U V : list (list R)) (Sg : list R) (M B : nat -> nat -> R) :
+  length V = p -> (forall t, (t < p)%nat -> length (nth t V []) = c) -> length Sg = p ->
+  orthonormal_cols d2 c (mget Rops Qm) ->
+  (forall i j, (i < d1)%nat -> (j < d2)%nat -> M i j = rsum c (fun a => B i a * mget Rops Qm j a)) ->
+  orthonormal_cols d1 p (mget Rops U) -> orthonormal_rows p c (mget Rops V) ->
+  (forall i a, (i < d1)%nat -> (a < c)%nat -> B i a = rsum p (fun t => mget Rops U i t * nth t Sg 0 * mget Rops V t a)) ->
+  (k <= p)%nat ->
+  let V' := mmul Rops d2 V (transp Rops c Qm) in
+  orthonormal_rows p d2 (mget Rops V') /\
+  (forall i j, (i < d1)%nat -> (j < d2)%nat -> M i j = recon U Sg V' i j) /\
+  rsum d1 (fun i => rsum d2 (fun j => (M i j - rsum k (fun t => mget Rops U i t * nth t Sg 0 * mget Rops V' t j))^2))
+  = rsum (p - k) (fun t => (nth (k + t) Sg 0)^2).
+Proof.
+  intros LV RV LS OQ HM OU OV HB Hk V'.
+  assert (forall t j, (t < p)%nat -> (j < d2)%nat -> mget Rops V' t j = fmul_matT c (mget Rops V) (mget Rops Qm) t j) as E.
+  { intros t j Ht Hj. unfold V', fmul_matT. rewrite (mg_mmul d2 V (transp Rops c Qm) t j c); [ | lia | exact Hj | now apply RV | ].
+    - apply rsum_ext; intros a Ha. now rewrite mg_transp'.
+    - unfold transp, cols_of. now rewrite map_length, seq_length. }
+  destruct (randomized_liftT_partial d1 d2 c p k M (mget Rops Qm) B (mget Rops U) (mget Rops V) (fun t => nth t Sg 0)
+              OQ HM OU OV HB Hk) as (O1 & R1 & E1).
+  split; [|split].
+  - eapply orthonormal_rows_ext; [|exact O1]. intros t j Ht Hj. now apply E.
+  - intros i j Hi Hj. unfold recon. rewrite LS. rewrite (R1 i j Hi Hj). apply rsum_ext; intros t Ht. now rewrite E.
+  - rewrite <- E1. apply rsum_ext; intros i Hi. apply rsum_ext; intros j Hj. f_equal. f_equal.
+    apply rsum_ext; intros t Ht. rewrite E by lia. reflexivity.
+Qed.
